@@ -39,7 +39,7 @@ def run_patch(pid, patch, keep=False):
             res["detail"] = "patch does not apply: " + r.stdout.strip()[:300]
             return res
         env = dict(os.environ, VERIF_REPO=tree, VERIF_EVIDENCE_DIR=os.path.join(scratch, "ev"), VERIF_REPORT_DIR=os.path.join(scratch, "rep"), VERIF_NOCACHE="1", VERIF_SELFTEST_CHILD="1")
-        r = subprocess.run([os.path.join(VERIF, "verif"), "check", pid, "--tier", "quick"], env=env, stdout=subprocess.PIPE, stderr=subprocess.STDOUT, text=True)
+        r = subprocess.run([os.path.join(VERIF, "verif"), "check", pid, "--tier", h.get("tier", "quick")], env=env, stdout=subprocess.PIPE, stderr=subprocess.STDOUT, text=True)
         res["rc"] = r.returncode
         keys = []
         rp = os.path.join(scratch, "rep", pid + ".json")
